@@ -1147,13 +1147,13 @@ func (db *DB) WriteDatabaseAt(ctx context.Context, f *os.File, data []byte, offs
 		return fmt.Errorf("database write must be exactly one page (%d bytes)", db.pageSize)
 	}
 
-	// Track dirty pages if we are using a rollback journal. This isn't
-	// necessary with the write-ahead log (WAL) since pages are appended
-	// instead of overwritten. We can determine the dirty set at commit-time.
+	// Track dirty pages for the rollback journal commit. With the write-ahead
+	// log (WAL) the dirty set is determined from the WAL at commit-time, but a
+	// database that is being switched out of WAL mode is rewritten through a
+	// rollback journal while it is still marked as WAL here, so always track.
+	// Pages copied by SQLite's checkpoint are dropped again in RemoveWAL().
 	pgno := uint32(offset/int64(db.pageSize)) + 1
-	if db.Mode() == DBModeRollback {
-		db.dirtyPageSet[pgno] = struct{}{}
-	}
+	db.dirtyPageSet[pgno] = struct{}{}
 
 	// Perform write on handle.
 	if err := db.writeDatabasePage(f, pgno, data, false); err != nil {
@@ -1367,6 +1367,10 @@ func (db *DB) RemoveWAL(ctx context.Context) (err error) {
 	// Clear all per-page checksums for the WAL.
 	db.wal.frameOffsets = make(map[uint32]int64)
 	db.wal.chksums = make(map[uint32][]ltx.Checksum)
+
+	// Database writes up to this point came from checkpointing the WAL and
+	// are already part of committed transactions.
+	db.dirtyPageSet = make(map[uint32]struct{})
 
 	return nil
 }
